@@ -252,6 +252,22 @@ fn sk(e: &Value, writer_is_local: bool) -> String {
 pub fn streamdata(trace: &[Value]) -> Vec<Value> {
     let mut out = vec![json!({"ev":"Reset","run":trace[0]["run"]})];
     for e in trace {
+        if e["ev"] == "End" {
+            // a sender that has gone completely quiet on a validated path (nothing in flight, no
+            // loss or pacing timer) while stream bytes are still unacknowledged has lost them
+            let mut abandoned: Vec<Value> = Vec::new();
+            for c in e["conns"].as_array().cloned().unwrap_or_default() {
+                if c["st"] == 1 && c["drained"] != true && c["lost"].as_i64().unwrap_or(0) == 0
+                    && c["ifb"].as_i64().unwrap_or(1) == 0 && c["tm0"] == -1 && c["tm6"] == -1 && c["val"] == true
+                {
+                    for s in c["sstreams"].as_array().cloned().unwrap_or_default() {
+                        abandoned.push(json!([c["n"], c["c"], s[0], s[1]]));
+                    }
+                }
+            }
+            out.push(json!({"ev":"End","abandoned":abandoned}));
+            continue;
+        }
         if e["ev"] != "Call" {
             continue;
         }
@@ -563,11 +579,17 @@ pub fn flow(trace: &[Value]) -> Vec<Value> {
                     }
                 }
                 let ccredit = (cap(&st["md"]) - cap(&st["ds"])).max(0);
-                let wcredit = (cap(&st["sw"]) - cap(&st["ua"])).max(0);
+                // bytes really awaiting acknowledgement: the send buffers of all streams that were not
+                // reset (a reset releases its stream's share), independent of the connection's counter
+                let uasum: i64 = st["send"].as_array().map_or(0, |a| {
+                    a.iter().filter(|s| s["st"].as_i64().unwrap_or(0) < 3).map(|s| cap(&s["ua"])).sum()
+                });
+                let wcredit = (cap(&st["sw"]) - uasum).max(0);
                 let closed = e["pre"]["st"].as_i64().unwrap_or(0) >= 2;
                 out.push(json!({"ev":"Write","side":side_of(n),"id":id,"len":cap(&e["len"]),
                     "res":e["res"]["k"],"n":e["res"].get("n").map_or(0, cap),
-                    "scredit":scredit,"ccredit":ccredit,"wcredit":wcredit,"closed":closed}));
+                    "scredit":scredit,"ccredit":ccredit,"wcredit":wcredit,"closed":closed,
+                    "ua":cap(&st["ua"]),"uasum":uasum.min(1 << 30)}));
             }
             "Call" if e["op"] == "open" => {
                 let st = &e["pre"]["streams"];
